@@ -1,5 +1,9 @@
 /-
 Driver for C32. Trace lines of one case (one authorizer configuration, 1+ requests):
+  set clit <nil|0|1> clil <nil|=hex> envt <nil|=hex> envl <nil|=hex>   (settings cases only, first line)
+                                                       what was written on the command line / in the
+                                                       environment; the cfg line is then what the real
+                                                       settings.LoadSettings made of it
   cfg <trust 0|1> <hex entry>*                         Options.TrustedProxyCIDRs, entry by entry
   req <tls 0|1> <hex RemoteAddr> cf <n> <hex>{n} xff <n> <hex>{n} xfp <n> <hex>{n}
   obs <ok|noecho> <remoteIP> <clientIP> <scheme> <inc>  what the Lua script saw: hex or `nil`;
@@ -10,11 +14,21 @@ The driver (1) runs `Pithos.ProxyTrust` (front end + decision) on the same strin
 import Pithos.Util.Proto
 import Pithos.Model.ProxyTrust
 import Pithos.Spec.ProxyTrust
-open Pithos Pithos.Proto Pithos.Ascii Pithos.NetParse Pithos.ProxyTrust
+import Pithos.Model.ProxySettings
+import Pithos.Spec.ProxySettings
+open Pithos Pithos.Proto Pithos.Ascii Pithos.NetParse Pithos.ProxyTrust Pithos.ProxySettings
 
 /-- Which variant of the code the tie compares against.
 FLIP to `true` once fixes/C32-unusable-cidr-list-trusts-nobody.patch is committed in /repo. -/
 def implRepaired : Bool := true
+
+/-- Which variant of `Settings.merge` the tie compares against.
+FLIP to `true` once fixes/C32-settings-merge-keeps-cli-slices.patch is committed in /repo. -/
+def implMergeFixed : Bool := true
+
+/-- Which variant of the list parsers of args.go / env.go the tie compares against.
+FLIP to `true` once fixes/C32-settings-separators-only-proxy-list.patch is committed in /repo. -/
+def implKeepUnusable : Bool := false
 
 def unhexL (s : String) : List Char := ((unhex s).getD []).map fun b => Char.ofNat b.toNat
 
@@ -53,7 +67,28 @@ def obsIp (t : String) : Bool × Option Nat :=
     | some a => (true, some a)
     | none => (false, none)
 
-def judgeCase (_k : Nat) (lines : List String) : Verdict := Id.run do
+def optRaw (t : String) : Option (List Char) :=
+  if t == "nil" then none else some (unhexL (t.drop 1).toString)
+
+structure SetLine where
+  cliTrust : Option Bool
+  cliList : Option (List Char)
+  envTrust : List Char     -- "" = unset
+  envList : List Char
+
+def parseSetLine (ts : List String) : Option SetLine :=
+  match ts with
+  | ["set", "clit", a, "clil", b, "envt", c, "envl", d] =>
+    some { cliTrust := if a == "nil" then none else some (a == "1"), cliList := optRaw b,
+           envTrust := (optRaw c).getD [], envList := (optRaw d).getD [] }
+  | _ => none
+
+def judgeCase (_k : Nat) (lines0 : List String) : Verdict := Id.run do
+  -- optional settings line
+  let setLine := (lines0.head?.map tokens).bind parseSetLine
+  let lines := if setLine.isSome then lines0.drop 1 else lines0
+  if (lines0.head?.map tokens).bind List.head? == some "set" && setLine.isNone then
+    return { diverge := ["unparsable-set-line"] }
   let (trust, entries) := match lines.head?.map tokens with
     | some ("cfg" :: t :: es) => (t == "1", es.map unhexL)
     | _ => (false, [])
@@ -63,6 +98,21 @@ def judgeCase (_k : Nat) (lines : List String) : Verdict := Id.run do
   let cfg := parseConfig raw
   let mut div : List String := []
   let mut vio : List (String × String) := []
+  -- what the property is judged against: the configuration as WRITTEN (settings cases), else as passed
+  let envListOpt (sl : SetLine) : Option (List Char) := if sl.envList.isEmpty then none else some sl.envList
+  let specList : Option Spec.ListSetting := setLine.map fun sl =>
+    Spec.effectiveList [Spec.classify sl.cliList, Spec.classify (envListOpt sl)]
+  let specTrust : Option Bool := setLine.map fun sl =>
+    Spec.effectiveTrust [sl.cliTrust, if sl.envTrust.isEmpty then none else some (envBool sl.envTrust)]
+  match setLine with
+  | some sl =>
+    -- tie of the glue: model of LoadSettings vs the real one
+    let m := load implMergeFixed implKeepUnusable sl.cliTrust sl.cliList sl.envTrust sl.envList
+    if m.trust != trust then
+      div := div ++ [s!"settings:trust:model={m.trust},impl={trust}"]
+    if m.entries != entries then
+      div := div ++ [s!"settings:list:model={m.entries.map String.ofList},impl={entries.map String.ofList}"]
+  | none => pure ()
   let mut nreq := 0
   let mut nused := 0
   let mut ntrustedPeer := 0
@@ -108,10 +158,30 @@ def judgeCase (_k : Nat) (lines : List String) : Verdict := Id.run do
           -- judge: the property on the observation alone
           let differs := !okC || oC != req.peer || oS != showScheme (peerScheme req.tls)
           if differs then nused := nused + 1
-          if differs && !Spec.mayDiffer cfg req.peer then
+          let allowed := match specTrust, specList with
+            | some t, some l => Spec.mayDiffer t l req.peer
+            | _, _ => ProxyTrust.Spec.mayDiffer cfg req.peer
+          if differs && !allowed then
             let sg :=
-              if !cfg.trust then "C32.forwarded-used-while-trust-off"
-              else if Spec.unusableList cfg then "C32.unusable-cidr-list-trusts-every-peer"
+              -- the glue handed the authorizer something else than what was written
+              if let (some sl, some l) := (setLine, specList) then
+                if ProxyTrust.Spec.mayDiffer cfg req.peer then
+                  -- the authorizer did what its Options say; the Options are wrong
+                  match l, Spec.classify sl.cliList, Spec.classify (envListOpt sl) with
+                  | .configured items, .configured _, .unset =>
+                    if !items.isEmpty && entries.isEmpty then "C32.settings-merge-drops-cli-proxy-list"
+                    else if items.isEmpty then "C32.separators-only-proxy-list-trusts-every-peer"
+                    else "C32.settings-effective-config-wrong"
+                  | .configured items, _, _ =>
+                    if items.isEmpty && entries.isEmpty then "C32.separators-only-proxy-list-trusts-every-peer"
+                    else "C32.settings-effective-config-wrong"
+                  | _, _, _ => "C32.settings-effective-config-wrong"
+                else if !cfg.trust then "C32.forwarded-used-while-trust-off"
+                else if ProxyTrust.Spec.unusableList cfg then "C32.unusable-cidr-list-trusts-every-peer"
+                else if req.peer.isNone then "C32.forwarded-used-for-peer-without-ip"
+                else "C32.forwarded-used-from-peer-outside-cidrs"
+              else if !cfg.trust then "C32.forwarded-used-while-trust-off"
+              else if ProxyTrust.Spec.unusableList cfg then "C32.unusable-cidr-list-trusts-every-peer"
               else if req.peer.isNone then "C32.forwarded-used-for-peer-without-ip"
               else "C32.forwarded-used-from-peer-outside-cidrs"
             vio := vio ++ [(sg, s!"req{idx}:peer={showIp req.peer}/{showScheme (peerScheme req.tls)},exposed={showIp oC}/{oS},entries={cfg.cidrs.length},usable={(usable cfg).length}")]
@@ -121,16 +191,19 @@ def judgeCase (_k : Nat) (lines : List String) : Verdict := Id.run do
   return {
     diverge := div, violations := vio,
     nontrivial := nontriv && nreq ≥ 1,
-    fingerprint := fpLines lines,
+    fingerprint := fpLines lines0,
     stats := [("requests", nreq), ("with_forwarded_headers", nhdr), ("exposed_differs_from_peer", nused),
               ("model_consults_headers", ntrustedPeer),
               ("cfg_trust_on", if cfg.trust then 1 else 0),
               ("cfg_no_list", if cfg.cidrs.isEmpty then 1 else 0),
-              ("cfg_unusable_list", if Spec.unusableList cfg then 1 else 0),
+              ("settings_cases", if setLine.isSome then 1 else 0),
+              ("settings_cli_list_only", match setLine with | some sl => (if sl.cliList.isSome && sl.envList.isEmpty then 1 else 0) | none => 0),
+              ("settings_both_layers_set_list", match setLine with | some sl => (if sl.cliList.isSome && !sl.envList.isEmpty then 1 else 0) | none => 0),
+              ("cfg_unusable_list", if ProxyTrust.Spec.unusableList cfg then 1 else 0),
               ("cfg_mixed_list", if !(usable cfg).isEmpty && (usable cfg).length < cfg.cidrs.length then 1 else 0),
               ("cfg_entries_valid", (usable cfg).length),
               ("cfg_entries_invalid", cfg.cidrs.length - (usable cfg).length)],
-    samples := [String.intercalate ";" (lines.take 3)]
+    samples := [String.intercalate ";" (lines0.take 3)]
   }
 
 def main : IO Unit := runDriver judgeCase
